@@ -1,6 +1,6 @@
 #!/bin/bash
 # run_seeds.sh [tier] [filter-regex] — run every seeded change against the quick (or given) tier of the
-# property it breaks, restricted to the harness crate of the diagram kind it touches.
+# property it breaks, restricted (to keep a sweep within hours) to the quick-tier harnesses of that property that exercise the changed function.
 # One line per seed in /tmp/seedruns/summary.txt: exit 1 = caught (VIOLATION, replayed natively),
 # 0 = missed, 2 = inconclusive.
 TIER=${1:-quick}; FILTER=${2:-.}
@@ -14,29 +14,29 @@ while read -r seed prop only; do
   viol=$(echo "$out" | grep -E "^  harness=" | head -2 | cut -c1-200 | tr '\n' ';')
   echo "$seed $prop tier=$TIER only=$only $rc wall=$(( $(date +%s) - s ))s $viol" >> /tmp/seedruns/summary.txt
 done <<LIST
-C02-bcdd-var-level-mixup C02 bcdd/
-C02b-bcdd-ite-f-cofactor-level-test C02 bcdd/
-C03-bcdd-ite-level-typo C03 bcdd/
-C04-bcdd-restrict-stale-parity C04 bcdd/
-C04b-bcdd-apply-quant-cache-add-popped-vars C04 bcdd/
-C05-bdd-apply-quant-done-leak-on-oom C05 bdd/
-C05b-mtbdd-apply-bin-dropguards-removed C05 mtbdd/
-C05b-mtbdd-apply-bin-dropguards-removed C14 mtbdd/
-C06-bdd-quant-cache-key-popped-vars C06 bdd/
-C06b-dmcache-numeric-operand-not-compared C06 bdd/cache
+C02-bcdd-var-level-mixup C02 bcdd/proofs::base_var_eval
+C02b-bcdd-ite-f-cofactor-level-test C02 bcdd/proofs::step_ite
+C03-bcdd-ite-level-typo C03 bcdd/proofs::step_ite
+C04b-bcdd-apply-quant-cache-add-popped-vars C04 bcdd/proofs::step_apply
+C05-bdd-apply-quant-done-leak-on-oom C05 bdd/proofs::step_apply
+C05b-mtbdd-apply-bin-dropguards-removed C05 mtbdd/proofs::step_add
+C05b-mtbdd-apply-bin-dropguards-removed C14 mtbdd/proofs::step_add
+C06-bdd-quant-cache-key-popped-vars C06 bdd/proofs::step_(exists|forall|unique|apply)
+C06b-dmcache-numeric-operand-not-compared C06 bdd/cache_proofs
 C08-concurrent-bubble-sort-off-by-one C08 reorder/
-C09-zbdd-subset-cache-key-level-vs-var C09 zbdd/
-C09b-zbdd-singleton-level-to-var C09 zbdd/
-C10-mtbdd-sub-commutative-cache-key C10 mtbdd/
-C10b-mtbdd-sub-self-shortcut C10 mtbdd/
-C11-tdd-imp-commutative-cache-key C11 tdd/
-C11b-tdd-xor-unknown-absorbing C11 tdd/
-C12-natural-add-dropped-carry C12 kernels/
-C13-zbdd-pick-cube-dd-dontcare-child C13 zbdd/
-C13b-bcdd-pick-cube-dd-set-literal-set-then-cofactor C13 bcdd/
-C14-bdd-apply-quant-not-leak-on-oom C14 bdd/
-C17-rawtable-remove-free-before-tombstone C17 hashtbl/
-C17b-rawtable-reserve-ignores-tombstones C17 hashtbl/
+C09-zbdd-subset-cache-key-level-vs-var C09 zbdd/proofs::step_subset
+C09b-zbdd-singleton-level-to-var C09 zbdd/proofs::base_constructors
+C10-mtbdd-sub-commutative-cache-key C10 mtbdd/proofs::step_sub
+C10b-mtbdd-sub-self-shortcut C10 mtbdd/proofs::step_sub
+C11-tdd-imp-commutative-cache-key C11 tdd/proofs::step_imp
+C11b-tdd-xor-unknown-absorbing C11 tdd/proofs::step_xor
+C12-natural-add-dropped-carry C12 kernels/natural
+C13-zbdd-pick-cube-dd-dontcare-child C13 zbdd/proofs::base_pick_cube
+C13b-bcdd-pick-cube-dd-set-literal-set-then-cofactor C13 bcdd/proofs::base_pick_cube_dd_set
+C14-bdd-apply-quant-not-leak-on-oom C14 bdd/proofs::step_apply
+C17-rawtable-remove-free-before-tombstone C17 hashtbl/proofs::step_remove
+C17b-rawtable-reserve-ignores-tombstones C17 hashtbl/proofs::step_insert
 C01-rawtable-retain-free-instead-of-tombstone C17 hashtbl/
+C04-bcdd-restrict-stale-parity C04 bcdd/proofs::step_(forall|exists|unique)$
 LIST
 echo DONE >> /tmp/seedruns/summary.txt
